@@ -1831,7 +1831,7 @@ theorem mergeTrees_leaf (mf : List ν → Option ν) (z d : ν) (vs : List ν) :
         (List.map (fun v => ((show Tree κ ν 0 from v), d)) (v :: w :: rest))) = mf (v :: w :: rest) :=
       congrArg mf hm
     refine (congrArg (fun o => Option.map (fun t : Tree κ ν 0 × ν => (show ν from t.1))
-      (Option.map (fun v => ((show Tree κ ν 0 from v), z)) o)) hmf).trans ?_
+      (Option.map (fun v => ((show Tree κ ν 0 from v), d)) o)) hmf).trans ?_
     cases mf (v :: w :: rest) <;> rfl
 
 theorem valsAt_tagWith (d : ν) (pairs : Fib κ ν) (c : κ) :
